@@ -65,8 +65,12 @@ def compare(root, pp, cfg, api, out, armed, stream='walk'):
         with util.watchdog(8), util.ScandirCounter(6000):
             if api == 0:
                 res = G.glob(text, flags=fl, root_dir=root)
-            else:
+            elif api == 1:
                 res = list(G.iglob(text, flags=fl, root_dir=root))
+            else:
+                # the pattern as the second element of a list whose first element is an absolute pattern that matches nothing:
+                # what a pattern denotes does not depend on the patterns that stand before it
+                res = G.glob([root + '/zz_no_such_entry', text], flags=fl, root_dir=root)
         ref, undecided = W.ref_glob(model, pp, FC.walker_opts(cfg))
     except util.HarnessBudget:
         out.stats['budget_skipped'] += 1
@@ -107,7 +111,7 @@ def run_walk(desc):
 
     @seed(desc['seed'])
     @util.hyp_settings(desc['n'], shrink=False)
-    @given(FC.st_case(), FC.st_cfg(CFG_KEYS), st.integers(0, 1))
+    @given(FC.st_case(), FC.st_cfg(CFG_KEYS), st.integers(0, 2))
     def test(sp, cfg, api):
         spec, pp = sp
         follow = FC.follows_links(cfg)
@@ -155,7 +159,7 @@ def run_literal(desc):
                             continue
                         seen.add(key)
                         pp = A.PathPat(False, segs, trail, 1)
-                        r = compare(root, pp, cfg, 0, out, armed, stream='literal')
+                        r = compare(root, pp, cfg, (0, 0, 2)[len(seen) % 3], out, armed, stream='literal')
                         if r is not None and r[0] and len(segs) >= 2:
                             out.nontrivial((desc['tree'], A.render_path(pp), tuple(sorted(cfg))))
         for i, (sz, b, c) in enumerate(out.violations):
